@@ -57,6 +57,9 @@ def regenerate() -> Dict[str, Any]:
     text, i = gen_fmt_helpers()
     i["changed"] = write_if_changed(os.path.join(GEN_DIR, "FmtHelpers.lean"), text)
     info["FmtHelpers"] = i
+    from . import translate_tables
+
+    info.update(translate_tables.regenerate())
     try:
         from . import translate_go
 
